@@ -36,7 +36,7 @@ ASSUMPTIONS = [
     'heat-capacity handles are oracles: a handle that is truthy has total integrals T_dependent_property_integral[_over_T](a, b) '
     'for numeric a, b (raises TypeError for None); a falsy handle raises (thermo raises UnboundLocalError; only "raises" is modelled)',
     'theorems: Cn ph continuous on the temperature interval used, I ph a b = RInt (Cn ph) a b, J ph a b = RInt (fun t => Cn ph t / t) a b, '
-    '0 < Tm < Tb, 0 < T_ref, 0 < T, 0 < P, 0 < P_ref, all data present (not None), Hvap(Tb) <> 0',
+    '0 < Tm, 0 < Tb (in either order), 0 < T_ref, 0 < T, 0 < P, 0 < P_ref, all data present (not None), Hvap(Tb) <> 0',
     'PhaseTPHandle.force_gas_critical_phase is False (the class default)',
     'float rounding is not modelled: values compared to 1e-9 relative; branch decisions (truthiness, == 0, <= 0) are exact because inputs are dyadic',
 ]
@@ -55,7 +55,10 @@ TRUSTED = [
 CASE_TIMEOUT = 60
 
 T_REF, P_REF = 298.15, 101325.0
-PHC = {'s': 'Ps', 'l': 'Pl', 'g': 'Pg', 'S': 'Ps', 'L': 'Pl'}
+PHC = {'s': 'Ps', 'l': 'Pl', 'g': 'Pg'}            # phases proper (phase_ref, locked state, keys of the integral tables)
+LAB = {'s': 'Ls', 'l': 'Ll', 'g': 'Lg', 'S': 'Lus', 'L': 'Lul'}
+PHTP = {k: f'(tpph {v})' for k, v in LAB.items()}   # phase LABEL of a query -> the model the generated PhaseTPHandle dispatch selects
+PHT = {k: f'(tph {v})' for k, v in LAB.items()}     # ... the generated PhaseTHandle dispatch (Cn)
 ERR = {'TypeError': 'EType', 'ZeroDivisionError': 'EZeroDiv', 'ValueError': 'EValue', 'KeyError': 'EKey',
        'IndexError': 'EIndex', 'OracleFailure': 'EOther'}
 
@@ -74,7 +77,8 @@ def translate():
     i5 = importlib.import_module('C07_rewire').run(vf.REPO, out_dir)
     i6 = importlib.import_module('C07_packages').run(vf.REPO, out_dir)
     i7 = importlib.import_module('C07_handles').run(vf.REPO, out_dir)
-    return [i1, i2, i3, i4, i5, i6, i7]
+    i8 = importlib.import_module('C07_phase_handle').run(vf.REPO, out_dir)
+    return [i1, i2, i3, i4, i5, i6, i7, i8]
 
 
 # ---------------------------------------------------------------------------------------------- environment
@@ -302,7 +306,7 @@ def gen_pkg(rng):
             mol = [rng.choice(MOLS) for _ in cur]
             if rng.random() < 0.4:        # one component only: the pure-component limit
                 j = rng.randrange(len(cur)); mol = [0.] * len(cur); mol[j] = rng.choice(MOLS[1:])
-            obs.append([kind, k, rng.choice('slg'), mol, rng.choice(TS[:4]), rng.choice(PS[:4])])
+            obs.append([kind, k, rng.choice('slgslgSL'), mol, rng.choice(TS[:4]), rng.choice(PS[:4])])
     return {'type': 'pkg', 'chems': specs, 'ops': ops, 'obs': obs, 'ln': [0., 1.]}
 
 
@@ -322,8 +326,15 @@ def run_pkg(case):
 
 
 # ---------------------------------------------------------------------------------------------- packages over changing chemicals
+def ident_index(lst, x):
+    for k, y in enumerate(lst):
+        if y is x: return k
+    raise ValueError('object not in the store')
+
+
 def run_pkghist_ops(case, strict=False):
-    store = [build_hist_chem(s) for s in case['chems']]
+    import pickle
+    store = [build_hist_chem(s, picklable=True) for s in case['chems']]
     pstore, oks = [], []
     tmo = env()['tmo']
     for kind, o in case['ops']:
@@ -333,6 +344,12 @@ def run_pkghist_ops(case, strict=False):
             elif o[0] == 'subset': pstore.append(pstore[o[1]].subset([store[i] for i in o[2]]))
             elif o[0] == 'extended': pstore.append(pstore[o[1]].extended([store[i] for i in o[2]]))
             elif o[0] == 'ideal': pstore.append(pstore[o[1]].ideal())
+            elif o[0] == 'pickle':
+                # package, mixture and chemicals in ONE pickle (what tmo.utils.save/load, copy.deepcopy and multiprocessing do);
+                # the loaded chemicals join the store, in the order of the package
+                t2 = pickle.loads(pickle.dumps(pstore[o[1]]))
+                store.extend(t2.chemicals.tuple)
+                pstore.append(t2)
             oks.append(True)
         except (TypeError, ValueError, AttributeError, RuntimeError) as ex:
             oks.append(type(ex).__name__)
@@ -351,8 +368,7 @@ def run_pkghist(case):
             else: vals.append(observe(mx.Cn, ph, mol, T))
     tdp = getattr(sys.modules['thermosteam._chemical'], 'TDependentProperty', None)
     if tdp is not None: tdp.RAISE_PROPERTY_CALCULATION_ERROR = True
-    ids = [c.ID for c in store]
-    return {'oks': oks, 'vals': vals, 'chem_lists': [[ids.index(i) for i in t.chemicals.IDs] for t in pstore],
+    return {'oks': oks, 'vals': vals, 'chem_lists': [[ident_index(store, c) for c in t.chemicals.tuple] for t in pstore],
             'tabI': [[list(k), v] for k, v in sorted(rec['I'].items())], 'tabJ': [[list(k), v] for k, v in sorted(rec['J'].items())]}
 
 
@@ -371,26 +387,29 @@ def gen_pkghist(rng):
     first = rng.sample(range(nc), rng.randint(2, nc))
     ops.append(['pkg', ['new', first]])
     pk = [list(first)]; ideal = [False]
+    nstore = nc
     for _ in range(rng.randint(2, 6)):
         r = rng.random()
         if r < 0.6:
             # the mixture keeps the H / S functor objects; an edit of the heat-capacity models after that would leave the discarded
             # functors with old constants and new live integrals (outside the model), so only the other inputs are edited here
-            i = rng.randrange(nc)
+            i = rng.randrange(nstore)
             r2 = rng.random()
             if r2 < 0.55:
                 w = rng.choice(['Tm', 'Tb', 'Hfus', 'Sfus', 'S0', 'Hfus', 'Sfus', 'S0'])
-                ops.append(['chem', ['setsc', i, w, rng.choice(TMS if w == 'Tm' else TBS if w == 'Tb' else VALS[1:7])]])
+                ops.append(['chem', ['setsc', i, w, rng.choice(TMS + TBS[1:3] if w == 'Tm' else TBS + TMS[:2] if w == 'Tb' else VALS[1:7])]])
             elif r2 < 0.67: ops.append(['chem', ['setpr', i, rng.choice('slg')]])
             elif r2 < 0.77: ops.append(['chem', ['reset', i]])
             elif r2 < 0.9: ops.append(['chem', ['muthv', i, rng.choice(HHV)]])
             else:
-                j = rng.choice([k for k in range(nc) if k != i])
+                j = rng.choice([k for k in range(nstore) if k != i])
                 ops.append(['chem', ['copymodels', i, j, ['Hvap']]])
         else:
             i = rng.randrange(len(pk)); cur = pk[i]
             r2 = rng.random()
-            if r2 < 0.5:
+            if r2 < 0.25:      # round trip through pickle: the loaded chemicals are new members of the store
+                ops.append(['pkg', ['pickle', i]]); pk.append(list(range(nstore, nstore + len(cur)))); ideal.append(ideal[i]); nstore += len(cur)
+            elif r2 < 0.5:
                 sel = list(cur); rng.shuffle(sel); ops.append(['pkg', ['subset', i, sel]]); pk.append(sel); ideal.append(ideal[i])
             elif r2 < 0.7 and len(cur) > 1:
                 sel = rng.sample(cur, rng.randint(1, len(cur) - 1)); ops.append(['pkg', ['subset', i, sel]]); pk.append(sel); ideal.append(ideal[i])
@@ -404,7 +423,7 @@ def gen_pkghist(rng):
             mol = [rng.choice(MOLS) for _ in cur]
             if rng.random() < 0.4:
                 j = rng.randrange(len(cur)); mol = [0.] * len(cur); mol[j] = rng.choice(MOLS[1:])
-            obs.append([rng.choice(['H', 'S', 'Cn']), k, rng.choice('slg'), mol, rng.choice(TS[:4]), rng.choice(PS[:4])])
+            obs.append([rng.choice(['H', 'S', 'Cn']), k, rng.choice('slgslgSL'), mol, rng.choice(TS[:4]), rng.choice(PS[:4])])
     return {'type': 'pkghist', 'chems': chems, 'ops': ops, 'obs': obs, 'ln': [0., 1.]}
 
 
@@ -443,7 +462,7 @@ def select_const(handle, alphabet, v):
     handle.method = f'K{alphabet.index(v)}'
 
 
-def build_hist_chem(spec):
+def build_hist_chem(spec, picklable=False):
     e = env(); tmo = e['tmo']
     e['n'] += 1
     c = tmo.Chemical(f'C07h{e["n"]}_', cache=False, search_db=False, MW=16., Hf=0., S0=spec['S0'], Tm=spec['Tm'], Tb=spec['Tb'],
@@ -454,6 +473,8 @@ def build_hist_chem(spec):
     if spec['hv'] is not None:
         select_const(c.Hvap, HHV, spec['hv'])
         c.Hvap.add_method(spec['hv'])
+    if picklable:
+        c.Psat.add_method(101325.)      # unpickling a package compiles its chemicals with the checks on: Psat is a key property
     c.reset_free_energies()
     return c
 
@@ -563,12 +584,12 @@ def gen_hist(rng):
             ops.append(['setpr', i, rng.choice('slg')])
         elif r < 0.96:
             w = rng.choice(['Tm', 'Tb', 'Hfus', 'Sfus', 'S0'])
-            ops.append(['setsc', i, w, rng.choice(TMS if w == 'Tm' else TBS if w == 'Tb' else VALS[1:7])])
+            ops.append(['setsc', i, w, rng.choice(TMS + TBS[1:3] if w == 'Tm' else TBS + TMS[:2] if w == 'Tb' else VALS[1:7])])
         else:
             ops.append(['reset', i])
     qs = []
     for _ in range(rng.randint(3, 5)):
-        qs.append([rng.choice('HS'), rng.choice('slg'), rng.choice([T_REF] + TS[:4] + TBS[:2]), rng.choice(PS[:4])])
+        qs.append([rng.choice('HS'), rng.choice('slgslgSL'), rng.choice([T_REF] + TS[:4] + TBS[:2]), rng.choice(PS[:4])])
     return {'type': 'hist', 'chems': chems, 'ops': ops, 'queries': qs, 'ln': [0., 1.]}
 
 
@@ -591,6 +612,8 @@ def gen_spec(rng, complete=False):
     spec = {'kind': kind, 'sp': sp, 'pr': pr, 'seed': rng.randrange(10 ** 6),
             'Tm': rng.choice(TMS), 'Tb': rng.choice(TBS), 'Hfus': rng.choice(VALS), 'Sfus': rng.choice(VALS),
             'S0': rng.choice(VALS), 'has': [True, True, True], 'hvap': 'ok', 'hvap_val': rng.choice(VALS[1:])}
+    if rng.random() < 0.15:          # sublimes at atmospheric pressure (like CO2): melting point above the boiling point
+        spec['Tm'], spec['Tb'] = rng.choice(TBS), rng.choice(TMS)
     if not complete:
         for f in ('Tm', 'Tb'):
             if rng.random() < 0.12: spec[f] = rng.choice([None, 0.0])
@@ -683,9 +706,9 @@ def gen_cases(rng, tier):
                 T = gen_T(rng, specs[0]); P = gen_P(rng)
                 mal = rng.random() < 0.12
                 if kind in ('H', 'S'):
-                    obs.append([kind, rng.choice('slg'), gen_mol(rng, nc, mal), T, P])
+                    obs.append([kind, rng.choice('slgslgSL'), gen_mol(rng, nc, mal), T, P])
                 elif kind == 'Cn':
-                    obs.append([kind, rng.choice('slg'), gen_mol(rng, nc, mal), T])
+                    obs.append([kind, rng.choice('slgslgSL'), gen_mol(rng, nc, mal), T])
                 else:
                     obs.append([kind, [[ph, gen_mol(rng, nc, mal)] for ph in rng.sample('slg', rng.randint(1, 3))], T, P])
             cases.append({'type': 'mix', 'chems': specs, 'excess': excess, 'Hex': hex_, 'Sex': sex_, 'obs': obs, 'ln': ln})
@@ -823,13 +846,13 @@ def coq_case(case, out):
             else: ops.append(f'(PIdeal {o[1]}%nat)')
         obs = []
         for kind, k, ph, mol, T, P in case['obs']:
-            if kind == 'Cn': obs.append(f'(PoCn {k}%nat {PHC[ph]} {cmol(mol)} {qo(T)})')
-            else: obs.append(f'(Po{kind} {k}%nat {PHC[ph]} {cmol(mol)} {qo(T)} {qo(P)})')
+            if kind == 'Cn': obs.append(f'(PoCn {k}%nat {PHT[ph]} {cmol(mol)} {qo(T)})')
+            else: obs.append(f'(Po{kind} {k}%nat {PHTP[ph]} {cmol(mol)} {qo(T)} {qo(P)})')
         chems = clist([cchem(s_, r) for s_, r in zip(case['chems'], out['rec'])])
         return (f'(pkg_case {lnc} {lnd} {chems} {clist(ops)} {clist([nl(x) for x in out["chem_lists"]])} '
                 f'{clist(obs)} {exp})')
     if case['type'] == 'chem':
-        qs = clist([f'(Q{fn} {PHC[ph]} {qo(T)} {qo(P)})' for fn, ph, T, P in case['queries']])
+        qs = clist([f'(Q{fn} {PHTP[ph]} {qo(T)} {qo(P)})' for fn, ph, T, P in case['queries']])
         return (f'(chem_case {lnc} {lnd} {cchem(case["chem"], out["rec"])} {qs} '
                 f'{ckinds(out["wiring_err"], out["kinds"])} {exp})')
     if case['type'] == 'mix':
@@ -842,11 +865,11 @@ def coq_case(case, out):
         terms = []
         for o in case['obs']:
             if o[0] in ('H', 'S'):
-                terms.append(f'(mix_{o[0]} {lnc} {lnd} m {PHC[o[1]]} {cmol(o[2])} {qo(o[3])} {qo(o[4])})')
+                terms.append(f'(mix_{o[0]} {lnc} {lnd} m {PHTP[o[1]]} {cmol(o[2])} {qo(o[3])} {qo(o[4])})')
             elif o[0] == 'Cn':
-                terms.append(f'(mix_Cn {lnc} {lnd} m {PHC[o[1]]} {cmol(o[2])} {qo(o[3])})')
+                terms.append(f'(mix_Cn {lnc} {lnd} m {PHT[o[1]]} {cmol(o[2])} {qo(o[3])})')
             else:
-                pm = clist([f'({PHC[p]}, {cmol(mm)})' for p, mm in o[1]])
+                pm = clist([f'({PHTP[p]}, {cmol(mm)})' for p, mm in o[1]])
                 terms.append(f'(mix_{o[0]} {lnc} {lnd} m {pm} {qo(o[2])} {qo(o[3])})')
         return f'(let m := {m} in pyvs_approxb {clist(terms)} {exp})'
     vals = clist(['(Err EValue)' if v == 'raise' else ('(Ok None)' if v is None else f'(Ok (Some {q(v)}))') for v in case['vals']])
@@ -900,16 +923,27 @@ def coq_pkgop(o):
 def coq_pobs(obs):
     out = []
     for kind, k, ph, mol, T, P in obs:
-        if kind == 'Cn': out.append(f'(PoCn {k}%nat {PHC[ph]} {cmol(mol)} {qo(T)})')
-        else: out.append(f'(Po{kind} {k}%nat {PHC[ph]} {cmol(mol)} {qo(T)} {qo(P)})')
+        if kind == 'Cn': out.append(f'(PoCn {k}%nat {PHT[ph]} {cmol(mol)} {qo(T)})')
+        else: out.append(f'(Po{kind} {k}%nat {PHTP[ph]} {cmol(mol)} {qo(T)} {qo(P)})')
     return clist(out)
 
 
 def coq_pkghist(case, out, lnc, lnd):
     ops = []
+    nstore = len(case['chems'])
+    pk = []                      # chemicals of every package so far (store indices)
+    def nl(x): return clist([f'{i}%nat' for i in x])
     for (kind, o), ok in zip(case['ops'], out['oks']):
         if ok is not True: continue
-        ops.append(coq_pkgop(o) if kind == 'pkg' else f'(PChem (hrun1 {coq_hop(o)}))')
+        if kind == 'chem':
+            ops.append(f'(PChem (hrun1 {coq_hop(o)}))')
+            if o[0] in ('copy', 'atstatecopy'): nstore += 1
+        elif o[0] == 'pickle':
+            ids = out['chem_lists'][o[1]]
+            ops.append(f'(PLoad {o[1]}%nat (hren {nstore}%nat {nl(ids)}) (hload {nstore}%nat {nl(ids)}) (hrebuild {nstore}%nat {len(ids)}%nat))')
+            nstore += len(ids)
+        else:
+            ops.append(coq_pkgop(o))
     cl = clist([clist([f'{i}%nat' for i in x]) for x in out['chem_lists']])
     exp = clist([cpyv(v) for v in out['vals']])
     return (f'(pkghist_case {lnc} {lnd} {coq_ctab(out["tabI"])} {coq_ctab(out["tabJ"])} {coq_hspecs(case["chems"])} '
@@ -927,9 +961,9 @@ def coq_hist(case, out, lnc, lnd):
         if ok is not True:
             continue            # the call raised: no state change is expected
         ops.append(coq_hop(o))
-    qs = clist([f'(Q{fn} {PHC[ph]} {qo(T)} {qo(P)})' for fn, ph, T, P in case['queries']])
+    qs = clist([f'(Q{fn} {PHTP[ph]} {qo(T)} {qo(P)})' for fn, ph, T, P in case['queries']])
     exp = clist([clist([cpyv(v) for v in row]) for row in out['hvals']])
-    cnqs = clist([PHC[ph] for fn, ph, T, P in case['queries']])
+    cnqs = clist([PHT[ph] for fn, ph, T, P in case['queries']])
     cnexp = clist([clist([cpyv(v) for v in row]) for row in out['cnvals']])
     hvexp = clist([cpyv(v) for v in out['hvvals']])
     return (f'(hist_case {lnc} {lnd} {tab(out["tabI"])} {tab(out["tabJ"])} {specs} ({clist(ops)} : list hop) {qs} {exp} '
@@ -939,7 +973,7 @@ def coq_hist(case, out, lnc, lnd):
 def coq_show(case, out):
     lnc, lnd = (q(x) for x in case['ln'])
     if case['type'] == 'chem':
-        qs = clist([f'(Q{fn} {PHC[ph]} {qo(T)} {qo(P)})' for fn, ph, T, P in case['queries']])
+        qs = clist([f'(Q{fn} {PHTP[ph]} {qo(T)} {qo(P)})' for fn, ph, T, P in case['queries']])
         c = cchem(case['chem'], out['rec'])
         return f'(wiring_kinds {lnc} {lnd} {c}, map (run_query {lnc} {lnd} {c}) {qs})'
     return 'tt'
@@ -983,7 +1017,7 @@ R_GAS = 8.3144598
 
 def complete(spec):
     return (spec['kind'] == 'handle' and all(spec['has']) and spec['hvap'] == 'ok' and spec['hvap_val']
-            and spec['Tm'] and spec['Tb'] and 0 < spec['Tm'] < spec['Tb']
+            and spec['Tm'] and spec['Tb'] and 0 < spec['Tm'] and 0 < spec['Tb']
             and all(spec[f] is not None for f in ('Hfus', 'Sfus', 'S0')))
 
 
@@ -1000,7 +1034,7 @@ def oracle_chem(spec, Ts, Ps):
     tag = f'[phase_ref={pr}]'
     if not close(H(pr, T_REF, P_REF), 0.): return f'H_ref_zero{tag}: H({pr}, T_ref) = {H(pr, T_REF, P_REF)} != H_ref = 0'
     if not close(S(pr, T_REF, P_REF), spec['S0']): return f'S_ref{tag}: S({pr}, T_ref, P_ref) = {S(pr, T_REF, P_REF)} != S0 = {spec["S0"]}'
-    for ph in 'slg':
+    for ph in 'slgSL':        # 'S' and 'L' label a second solid / liquid phase: same pure-component models
         for T in Ts:
             for P in Ps:
                 h = 2. ** -6
@@ -1171,7 +1205,7 @@ def oracle_pkghist(case):
             return f(c)(T, P) if c.locked_state else f(c)(ph, T, P)
         for j, c in enumerate(own):
             m = [0.] * n; m[j] = 2.
-            cid = store.index(c)
+            cid = ident_index(store, c)
             for phase in 'lgs':
                 try:
                     wantH, wantS = 2. * pure(lambda c: c.H, c, phase), 2. * pure(lambda c: c.S, c, phase)
@@ -1184,7 +1218,7 @@ def oracle_pkghist(case):
                         why = edits_after(k, cid)
                         key = {'rebuild': 'package_mixture_stale_after_functor_rebuild', 'constant': 'package_mixture_stale_after_constant_setter',
                                None: 'package_mixture_wrong'}[why]
-                        return (f'{key}: package #{k} (chemicals {[store.index(x) for x in own]}) after {describe()}: mixture.{name}({phase!r}, {m}) = {got[name]} '
+                        return (f'{key}: package #{k} (chemicals {[ident_index(store, x) for x in own]}) after {describe()}: mixture.{name}({phase!r}, {m}) = {got[name]} '
                                 f'but 2 x {name} of its chemical #{cid} is now {want}')
     return None
 
@@ -1223,6 +1257,18 @@ def oracle_mix(specs, mols, phase, T, P):
     n = len(chems)
     mols = [[abs(x) for x in m[:n]] + [0.] * (n - len(m[:n])) for m in mols]
     late = None
+    for lab in 'LS':          # the second liquid / solid phase of a multi-phase stream
+        for m in mols:
+            pureC = [c.Cn(lab, T) for c in chems]
+            if not close(mix.Cn(lab, m, T), sum(x * y for x, y in zip(m, pureC))):
+                return f'mix_linear: mixture Cn({lab!r}) {mix.Cn(lab, m, T)} is not the mole-weighted sum {sum(x * y for x, y in zip(m, pureC))}'
+            h = 2. ** -6
+            dH = (mix.H(lab, m, T + h, P) - mix.H(lab, m, T - h, P)) / (2 * h)
+            if not close(dH, mix.Cn(lab, m, T), 1e-5):
+                return f'mix_dH_dT: d mixture.H({lab!r}, {m})/dT = {dH} but mixture.Cn({lab!r}) = {mix.Cn(lab, m, T)}'
+            for name, f in (('H', lambda p: mix.H(p, m, T, P)), ('Cn', lambda p: mix.Cn(p, m, T))):
+                if not close(f(lab), f(lab.lower())):
+                    return f'phase_label: mixture {name}({lab!r}, {m}) = {f(lab)} differs from the value for {lab.lower()!r} = {f(lab.lower())}'
     for m in mols:
         for name, f, pure in (('H', lambda mm: mix.H(phase, mm, T, P), [c.H(phase, T, P) for c in chems]),
                               ('Cn', lambda mm: mix.Cn(phase, mm, T), [c.Cn(phase, T) for c in chems])):
@@ -1310,7 +1356,8 @@ def oracle_db(case):
 
 
 def search_cases(rng, tier):
-    out = [{'type': 'db', 'ID': 'Water', 'phase_ref': None}, {'type': 'db', 'ID': 'Ethanol', 'phase_ref': 'g'}]
+    out = [{'type': 'db', 'ID': 'Water', 'phase_ref': None}, {'type': 'db', 'ID': 'Ethanol', 'phase_ref': 'g'},
+           {'type': 'db', 'ID': 'CO2', 'phase_ref': None}, {'type': 'db', 'ID': 'CO2', 'phase_ref': 's'}, {'type': 'db', 'ID': 'SF6', 'phase_ref': 'l'}]
     a = {'pr': 'l', 'Tm': 200., 'Tb': 350., 'Hfus': 1000., 'Sfus': 5., 'S0': 12.25, 'cn': [24., 64., 32.], 'hv': 40650.}
     b = dict(a, cn=[40., 128., 75.5], hv=6010.5, pr='g')
     qs = [['H', 'l', 300., P_REF]]
@@ -1325,6 +1372,7 @@ def search_cases(rng, tier):
         out.append(gen_pkghist(rng))
         w, v = rng.choice([('S0', 40650.), ('Hfus', 6010.5), ('Sfus', 12.25)])
         out.append({'type': 'pkghist', 'chems': [_HA, _HB], 'ops': [['pkg', ['new', [0, 1]]], ['chem', ['setsc', rng.randrange(2), w, v]]], 'obs': [], 'ln': [0., 1.]})
+        out.append({'type': 'pkghist', 'chems': [_HA, _HB], 'ops': [['pkg', ['new', [0, 1]]], ['pkg', ['pickle', 0]], ['chem', ['setsc', 2 + rng.randrange(2), w, v]]], 'obs': [], 'ln': [0., 1.]})
     for k in range(40 if tier == 'quick' else 400):
         spec = gen_spec(rng, complete=True)
         spec['kind'], spec['sp'] = 'handle', None
@@ -1369,6 +1417,12 @@ CORPUS = [
      'obs': [['H', 0, 'g', [1., 2.], 400., P_REF], ['S', 0, 'l', [2., 0.], 300., P_REF], ['S', 0, 's', [0., 1.], 250., 2 * P_REF], ['Cn', 0, 'l', [1., 1.], 300., P_REF],
              ['H', 1, 's', [1., 2.], 250., P_REF], ['S', 1, 'g', [1., 0.], 400., P_REF], ['H', 2, 'l', [0.5, 0.25], 300., P_REF],
              ['H', 3, 'g', [1., 2.], 400., P_REF], ['S', 3, 's', [0., 1.], 250., P_REF]], 'ln': [0., 1.]},
+    # the package goes through pickle together with its chemicals; then the LOADED chemicals (#2, #3) are edited
+    {'type': 'pkghist', 'chems': [_HA, _HB], 'ops': [['pkg', ['new', [1, 0]]], ['chem', ['setsc', 0, 'Hfus', 6010.5]], ['pkg', ['pickle', 0]],
+                                                   ['chem', ['setsc', 2, 'S0', 40650.]], ['chem', ['setsc', 3, 'Hfus', 0.5]], ['chem', ['setsc', 3, 'Sfus', 12.25]],
+                                                   ['chem', ['setsc', 0, 'S0', 1000.]], ['pkg', ['pickle', 1]], ['chem', ['setsc', 4, 'Tb', 400.5]]],
+     'obs': [['S', 1, 'g', [2., 1.], 400., P_REF], ['H', 1, 's', [1., 2.], 250., P_REF], ['S', 1, 's', [0., 1.], 250., 2 * P_REF], ['S', 0, 'l', [1., 1.], 300., P_REF],
+             ['H', 2, 'g', [1., 1.], 400., P_REF], ['S', 2, 'L', [2., 0.], 300., P_REF], ['Cn', 1, 'L', [1., 3.], 300., P_REF]], 'ln': [0., 1.]},
     # only the S0 / Hfus / Sfus setters after the package: they patch the functors in place, the package must follow
     {'type': 'pkghist', 'chems': [_HA, _HB], 'ops': [['pkg', ['new', [1, 0]]], ['chem', ['setsc', 0, 'S0', 40650.]], ['chem', ['setsc', 1, 'Hfus', 6010.5]],
                                                    ['chem', ['setsc', 1, 'Sfus', 12.25]], ['chem', ['setsc', 0, 'Hfus', 0.5]], ['pkg', ['ideal', 0]]],
